@@ -330,8 +330,17 @@ def rule_order_and_restore(chk):
         problems.append("the wrapper does not install the logger with exactly one swap_logger(logger) whose result is kept")
     else:
         prev = inst[0][0].ast.targets[0].id
+        direct = [n for n in wcfg.live for c, m in calls_in_node(n) if isinstance(c.func, ast.Attribute) and c.func.attr == "addCleanup" and len(c.args) == 2
+                  and isinstance(c.args[0], ast.Name) and sw in [t for t in [ctx.p.resolve_name(w.module, w, c.args[0].id)] if False] + ([sw] if c.args[0].id == sw.name else [])
+                  and isinstance(c.args[1], ast.Name) and c.args[1].id == prev]
         restorers = [g for g in w.nested.values() if any(isinstance(x, ast.Call) and sw in ctx.targets(g, x) and len(x.args) == 1 and isinstance(x.args[0], ast.Name) and x.args[0].id == prev for x in ast.walk(g.node))]
-        if not restorers or len(stores_to_name(w, prev)) != 1:
+        if direct and len(stores_to_name(w, prev)) == 1:
+            fcalls = [n for n in wcfg.live for c, m in calls_in_node(n) if isinstance(c.func, ast.Name) and c.func.id == "function"]
+            if not fcalls or not wcfg.precedes(direct, fcalls)[0]:
+                problems.append("the restoring cleanup is not registered with addCleanup before the test function is called")
+            if not wcfg.must_pass([inst[0][0]], [wcfg.exit, wcfg.raise_exit], direct, avoid_edges=common.quiet_exc_edges(ctx, w))[0]:
+                problems.append("a path installs the logger without registering the restoring cleanup")
+        elif not restorers or len(stores_to_name(w, prev)) != 1:
             problems.append("no cleanup restores exactly the logger returned by the installing swap_logger call")
         else:
             rg = restorers[0]
